@@ -248,7 +248,9 @@ class PG:
             self.begin("cm")
             self.emit("    cdef int cm(self, int a) except -1:")
             self.emit("        " + self.p())
-            self.emit("        return a + self.v")
+            # 'except -1' (without '?') promises that -1 is never returned without an exception: keep the result non-negative
+            # (a caller passes values that c_exq*() legitimately returned, including -1)
+            self.emit("        return (a + self.v) & 0xffff")
             self.end()
             self.emit("")
             self.props.append(cname)
